@@ -1194,7 +1194,7 @@ func TestVerif_C27(t *testing.T) {
 		}
 	})
 	r.Require("runs", int64(n*9/10))
-	r.Require("server_datagrams_checked", 1000)
+	r.Require("server_datagrams_checked", 600)
 	r.Require("client_datagrams_credited", 500)
 	r.Require("runs_server_blocked_by_limit", 30)
 	r.Require("runs_with_partial_allowance_128_to_1199", 10)
